@@ -485,7 +485,7 @@ def run_btcopy(case, ctx):
     elif what == "move-a-remembered-branch":
         br = edited.branches[k][0]
         for col in ("x", "y", "z"):
-            br.attach.ndata[col][...] = br.attach.ndata[col] + np.float32(case["val"] + 1.0)
+            br.attach.ndata[col][...] = br.attach.ndata[col] + np.float32(abs(case["val"]) + 1.0)  # never a move by zero
     else:
         nd = edited.node((case["sel"] // 2) % len(edited))
         nd.x = float(case["val"]) + 777.0
